@@ -4,8 +4,8 @@
    (the vector has exactly count elements, so the index never fails) and for each record reads the
    name, the payload and decodes it before looking at the next one.
    The only fixed-width arithmetic is the u32 sum `header.texture_ptr + texture_info[i].texture_ptr`.
-   `(bpp * w as f32 * h as f32) as usize` is [payload_size] (assumption A-float: exact for the sizes
-   of the property).  ctpk::read does not look at the magic number. *)
+   `(bpp * w as f32 * h as f32) as usize` is [payload_size32]: the binary32 product with its rounding
+   (TexCommon.v); it equals the true payload size [payload_size] exactly when [f32_exact] holds.  ctpk::read does not look at the magic number. *)
 From Coq Require Import List NArith Bool.
 From Mila Require Import Lib.Bytes Lib.Machine Model.Pixel Model.Etc1 Model.TexCommon.
 Import ListNotations.
@@ -49,7 +49,7 @@ Fixpoint ctpk_infos (f : bytes) (p : N) (n : nat) : outcome (list ctpk_info) :=
 Definition ctpk_texture (m : mode) (f : bytes) (tptr : N) (i : ctpk_info) : outcome texture :=
   name <- read_name sjis_valid f (ci_name_ptr i) ;;
   off <- add32 m tptr (ci_data_ptr i) ;;
-  data <- rd_exact f off (payload_size (ci_fmt i) (ci_w i) (ci_h i)) ;;
+  data <- rd_exact f off (payload_size32 (ci_fmt i) (ci_w i) (ci_h i)) ;;
   px <- decode_pixel_data m data (ci_w i) (ci_h i) (ci_fmt i) ;;
   Ok (mkTexture name (ci_w i) (ci_h i) px).
 
